@@ -99,7 +99,9 @@ func (def *mapAsList) deleteByKey(r node.ListRequest) error {
 
 func (def *mapAsList) getByRow(r node.ListRequest) (reflect.Value, []reflect.Value, error) {
 	var empty reflect.Value
-	if def.index == nil {
+	if def.index == nil || r.First {
+		// every reading of the list starts from the keys the map holds now: entries may have come and
+		// gone through other selections since this one read the list last
 		def.index = newIndex(def.src.MapKeys(), def.c)
 	}
 	if r.Row >= len(def.index.vals) {
